@@ -19,9 +19,7 @@ VERIF = os.path.dirname(os.path.dirname(os.path.abspath(__file__)))
 OUT_DIR = os.path.join(VERIF, 'lean', 'PysparklingVerif', 'Extracted')
 
 
-class NotTranslatable(Exception):
-    pass
-
+from extract_base import NotTranslatable, find_class, find_def, parse  # noqa: E402  pylint: disable=wrong-import-position
 
 class Tr:
     """state-passing translation of a method body into a Lean term that builds the final record"""
@@ -225,25 +223,6 @@ class Tr:
 
 # ---- locating fragments -------------------------------------------------------------------------
 
-def parse(repo, rel):
-    with open(os.path.join(repo, rel)) as f:
-        return ast.parse(f.read())
-
-
-def find_class(tree, name):
-    for n in ast.walk(tree):
-        if isinstance(n, ast.ClassDef) and n.name == name:
-            return n
-    raise NotTranslatable('class %s not found' % name)
-
-
-def find_def(node, name):
-    for n in ast.walk(node):
-        if isinstance(n, ast.FunctionDef) and n.name == name:
-            return n
-    raise NotTranslatable('def %s not found' % name)
-
-
 def structure(name, fields, num):
     return 'structure %s where\n%s\n  deriving Repr, DecidableEq\n' % (name, '\n'.join('  %s : %s' % (f, num) for f in fields))
 
@@ -435,11 +414,18 @@ def gen_c16(repo):
 
 GENERATORS = {'C16': gen_c16, 'C07': gen_c07, 'C14': gen_c14, 'C17': gen_c17, 'C18': gen_c18}
 
+from extract_m import GENERATORS_M  # noqa: E402  pylint: disable=wrong-import-position
+GENERATORS.update(GENERATORS_M)
+USES_PRELUDE = set(GENERATORS_M)
+
 
 def generate(prop, repo):
     """-> (path, text); raises NotTranslatable"""
     src, body = GENERATORS[prop](repo)
-    text = HEADER % (src, prop, prop) + body + '\nend PysparklingVerif.Gen.%s\n' % prop
+    head = HEADER % (src, prop, prop)
+    if prop in USES_PRELUDE:
+        head = head.replace('namespace PysparklingVerif', 'import PysparklingVerif.Extracted.Prelude\nset_option linter.unusedVariables false\nnamespace PysparklingVerif', 1)
+    text = head + body + '\nend PysparklingVerif.Gen.%s\n' % prop
     os.makedirs(OUT_DIR, exist_ok=True)
     path = os.path.join(OUT_DIR, 'Gen%s.lean' % prop)
     old = open(path).read() if os.path.exists(path) else None
